@@ -9,7 +9,7 @@ bool is_help_requested(const struct params *params)
 bool is_version_requested(const struct params *params)
     __attribute__((pure, nonnull, warn_unused_result));
 const char *get_config_path(const struct params *params)
-    __attribute__((pure, returns_nonnull, nonnull, warn_unused_result));
+    __attribute__((pure, nonnull, warn_unused_result));
 const char *get_privilege_dropping_path(const struct params *params)
     __attribute__((pure, returns_nonnull, nonnull, warn_unused_result));
 const struct list *get_write_mounts(const struct params *params)
